@@ -7,6 +7,14 @@ from fsgen import cq_tv
 
 KINDS = {"buildpack": "DBuildpack", "plan": "DPlan", "layer": "DLayer", "launch": "DLaunch", "store": "DStore",
          "package": "DPackage"}
+SYNONYMS = {"distros": ["distributions", "distro"], "arch": ["architecture"], "os": ["operating-system", "platform"], "variant": ["arch-variant"],
+            "id": ["identifier", "ID"], "uri": ["url", "URI"], "version": ["ver"], "args": ["arguments"], "command": ["cmd"],
+            "metadata": ["meta"], "types": ["type"], "processes": ["process"], "entries": ["entry"], "labels": ["label"],
+            "slices": ["slice"], "paths": ["path", "globs"], "default": ["is-default"], "working-dir": ["workdir", "working-directory"],
+            "key": ["name"], "value": ["val"], "launch": ["run"], "build": ["compile"], "cache": ["cached"], "homepage": ["home-page"],
+            "description": ["desc"], "keywords": ["tags"], "licenses": ["license"], "targets": ["target"], "stacks": ["stack"],
+            "dependencies": ["deps"], "order": ["orders"], "group": ["groups"], "optional": ["opt"], "api": ["api-version"],
+            "buildpack": ["buildpacks"], "clear-env": ["clearenv"], "sbom-formats": ["sbom"], "mixins": ["mixin"]}
 STRS = ["", "x", "a b", 'q"uote', "back\\slash", "new\nline", "tab\t", "é☃", "\x01ctl", "="]
 
 
@@ -186,6 +194,17 @@ class C08:
                     m = copy.deepcopy(doc)
                     self.at(m, path)[nk] = rng.choice([True, "x", [], ["application/spdx+json"]])
                     yield "unknown@" + "/".join(map(str, path)), m
+            # a key under another plausible name (long form, singular / plural, other tools' spelling) carrying the
+            # same value: not a key of the format, so not an accepted alias of one
+            for k in list(tbl.keys()):
+                if k in self.FREE:
+                    continue
+                for nk in SYNONYMS.get(k, []) + ([k + "s"] if not k.endswith("s") else [k[:-1]]):
+                    if nk and nk not in tbl:
+                        m = copy.deepcopy(doc)
+                        t = self.at(m, path)
+                        t[nk] = t.pop(k)
+                        yield "synonym@" + "/".join(map(str, path + (k,))), m
             for k in list(tbl.keys()):
                 m = copy.deepcopy(doc)
                 del self.at(m, path)[k]
@@ -239,7 +258,10 @@ class C08:
                 cases.append({"ty": ty, "doc": doc, "mut": "valid", "style": rng.choice([0, 1])})
                 muts = list(self.mutations(rng, doc))
                 if tier != "thorough" and len(muts) > 40:
-                    muts = rng.sample(muts, 40)
+                    # (renamed keys are few per document and each name is its own question: all of them are kept)
+                    syn = [x for x in muts if x[0].startswith("synonym@")]
+                    other = [x for x in muts if not x[0].startswith("synonym@")]
+                    muts = rng.sample(other, min(40, len(other))) + syn
                 for name, m in muts:
                     cases.append({"ty": ty, "doc": m, "mut": name, "style": rng.choice([0, 1])})
         for c in cases:
